@@ -172,6 +172,12 @@ func (vfs *OrefaFS) Chown(name string, uid, gid int) error {
 func (vfs *OrefaFS) Chtimes(name string, atime, mtime time.Time) error {
 	const op = "chtimes"
 
+	if atime.IsZero() && mtime.IsZero() && vfs.OSType() != avfs.OsWindows {
+		// A zero time.Time value leaves the corresponding file time unchanged :
+		// when both are omitted Linux does not even look the file up.
+		return nil
+	}
+
 	absPath := vfs.absPath(name)
 
 	// the index stays read locked until the node is modified : the file can't be removed in between.
